@@ -57,6 +57,9 @@ func (o Op) String() string {
 		}
 		return fmt.Sprintf("p%d u%d.Set%s(%s)", o.P, o.H, setterNames[o.W%len(setterNames)], q(string(o.A)))
 	case "parse":
+		if o.W == 2 {
+			return fmt.Sprintf("p%d u%d=BasicParser(%s, nil, NewUrl(), NoState)", o.P, o.D, q(string(o.A)))
+		}
 		if o.W == 0 {
 			return fmt.Sprintf("p%d u%d=Parse(%s)", o.P, o.D, q(string(o.A)))
 		}
